@@ -131,16 +131,42 @@ Proof. apply Ev_loop_call'. reflexivity. Qed.
 
 Lemma Ev_loop_sub' n l ch ts r s r' res :
   classify ts = KLBr r ->
-  Ev (MExpr slot_Subscript_slice) r (s, PK "]" :: r') -> Ev (MLoop n (Subscript l s) CNone) r' res ->
+  Ev MIndex r (s, PK "]" :: r') -> Ev (MLoop n (Subscript l s) CNone) r' res ->
   Ev (MLoop n l ch) ts res.
 Proof.
   intros Hc [f1 H1] [f2 H2]. ev_start (Nat.max f1 f2). rewrite Hc, H1 by lia.
   change (String.eqb "]" "]") with true. cbv iota. apply H2. lia.
 Qed.
 Lemma Ev_loop_sub n l ch r s r' res :
-  Ev (MExpr slot_Subscript_slice) r (s, PK "]" :: r') -> Ev (MLoop n (Subscript l s) CNone) r' res ->
+  Ev MIndex r (s, PK "]" :: r') -> Ev (MLoop n (Subscript l s) CNone) r' res ->
   Ev (MLoop n l ch) (PK "[" :: r) res.
 Proof. apply Ev_loop_sub'. reflexivity. Qed.
+
+(* the index of a subscription *)
+Lemma Ev_index_plain ts e r : hd_is ":" ts = false -> hd_is ":" r = false ->
+  Ev (MExpr slot_Subscript_slice) ts (e, r) -> Ev MIndex ts (e, r).
+Proof. intros H1 H2 [f1 E1]. ev_start f1. rewrite H1, E1 by lia. rewrite H2. reflexivity. Qed.
+Lemma Ev_index_colon r res : Ev (MSliceUp None) r res -> Ev MIndex (PK ":" :: r) res.
+Proof. intros [f1 E1]. ev_start f1. cbn [hd_is is_key tl]. change (String.eqb ":" ":") with true. cbv iota. apply E1. lia. Qed.
+Lemma Ev_index_lower ts e r res : hd_is ":" ts = false ->
+  Ev (MExpr slot_Subscript_slice) ts (e, PK ":" :: r) -> Ev (MSliceUp (Some e)) r res -> Ev MIndex ts res.
+Proof.
+  intros H1 [f1 E1] [f2 E2]. ev_start (Nat.max f1 f2). rewrite H1, E1 by lia. cbn [hd_is is_key tl].
+  change (String.eqb ":" ":") with true. cbv iota. apply E2. lia.
+Qed.
+Lemma Ev_up_none lower r res : Ev (MSliceStep lower None) r res -> Ev (MSliceUp lower) (PK ":" :: r) res.
+Proof. intros [f1 E1]. ev_start f1. reflexivity || (cbn [slice_stop hd_is is_key orb tl]; apply E1; lia). Qed.
+Lemma Ev_up_some lower ts u r res : slice_stop ts = false ->
+  Ev (MExpr slot_Slice_upper) ts (u, PK ":" :: r) -> Ev (MSliceStep lower (Some u)) r res -> Ev (MSliceUp lower) ts res.
+Proof.
+  intros H1 [f1 E1] [f2 E2]. ev_start (Nat.max f1 f2). rewrite H1, E1 by lia. cbn [hd_is is_key tl].
+  change (String.eqb ":" ":") with true. cbv iota. apply E2. lia.
+Qed.
+Lemma Ev_step_none lower upper ts : slice_stop ts = true -> Ev (MSliceStep lower upper) ts (Slice lower upper None, ts).
+Proof. intros H. ev_start 0. rewrite H. reflexivity. Qed.
+Lemma Ev_step_some lower upper ts st r : slice_stop ts = false ->
+  Ev (MExpr slot_Slice_step) ts (st, r) -> Ev (MSliceStep lower upper) ts (Slice lower upper (Some st), r).
+Proof. intros H [f1 E1]. ev_start f1. rewrite H, E1 by lia. reflexivity. Qed.
 
 Lemma Ev_loop_if' n l ch ts r t r' o r'' res :
   classify ts = KIf r -> node_prec_IfExp <= n ->
@@ -623,7 +649,7 @@ Proof.
     rewrite <- app_assoc. apply (head_ok_child e); [exact (ec_nostar _ Hc1)|]. apply IHe. exact (ec_core _ Hc1).
   - (* Attribute *) rewrite <- app_assoc. apply pparen_head.
     apply (head_ok_child e); [exact (ec_nostar _ Hc)|]. apply IHe. exact (ec_core _ Hc).
-  - (* Subscript *) apply andb_prop in Hc as [Hc _]. apply andb_prop in Hc as [Hc1 _]. rewrite <- app_assoc.
+  - (* Subscript *) apply andb_prop in Hc as [Hc1 _]. rewrite <- app_assoc.
     apply (head_ok_child e1); [exact (ec_nostar _ Hc1)|]. apply IHe1. exact (ec_core _ Hc1).
   - (* Call *) apply andb_prop in Hc as [Hc _]. apply andb_prop in Hc as [Hc1 _]. rewrite <- app_assoc.
     apply (head_ok_child e); [exact (ec_nostar _ Hc1)|]. apply IHe. exact (ec_core _ Hc1).
@@ -676,7 +702,7 @@ Proof.
   - (* Compare *) apply andb_prop in Hc as [Hc _]. apply andb_prop in Hc as [Hc _]. apply andb_prop in Hc as [Hc1 _].
     rewrite <- app_assoc. apply IHe; [exact (ec_core _ Hc1)|vm_compute; lia].
   - (* Attribute *) rewrite <- app_assoc. apply pparen_not. intros _. apply IHe; [exact (ec_core _ Hc)|vm_compute; lia].
-  - (* Subscript *) apply andb_prop in Hc as [Hc _]. apply andb_prop in Hc as [Hc1 _]. rewrite <- app_assoc.
+  - (* Subscript *) apply andb_prop in Hc as [Hc1 _]. rewrite <- app_assoc.
     apply IHe1; [exact (ec_core _ Hc1)|vm_compute; lia].
   - (* Call *) apply andb_prop in Hc as [Hc _]. apply andb_prop in Hc as [Hc1 _]. rewrite <- app_assoc.
     apply IHe; [exact (ec_core _ Hc1)|vm_compute; lia].
@@ -701,7 +727,7 @@ Proof.
     rewrite <- app_assoc. apply IHe; [exact (ec_core _ Hc1)|].
     destruct cs as [|c cs']; [discriminate|]. destruct ops as [|o ops']; [discriminate|]. destruct o; reflexivity.
   - (* Attribute *) rewrite <- app_assoc. apply pparen_nokw. intros _. apply IHe; [exact (ec_core _ Hc)|reflexivity].
-  - (* Subscript *) apply andb_prop in Hc as [Hc _]. apply andb_prop in Hc as [Hc1 _]. rewrite <- app_assoc.
+  - (* Subscript *) apply andb_prop in Hc as [Hc1 _]. rewrite <- app_assoc.
     apply IHe1; [exact (ec_core _ Hc1)|reflexivity].
   - (* Call *) apply andb_prop in Hc as [Hc _]. apply andb_prop in Hc as [Hc1 _]. rewrite <- app_assoc.
     apply IHe; [exact (ec_core _ Hc1)|reflexivity].
@@ -1147,13 +1173,20 @@ Qed.
 Lemma safe_parts d rest (b : bool) : edge d rest && b = true -> edge d rest = true /\ b = true.
 Proof. intros H. apply andb_prop in H. exact H. Qed.
 
-(* what the induction proves of a node: the statement for the node itself, or - for a starred element - for its value *)
-Definition P_stmt (e : expr) : Prop := core e = true -> match e with Starred v => A_stmt v | _ => A_stmt e end.
+(* what the induction proves of a node: the statement for the node itself; for a starred element, for its value; for a
+   slice (which is not an expression on its own), for its parts *)
+Definition oQ (o : option expr) : Prop :=
+  match o with Some x => core x && negb (is_starred x) = true -> opP x | None => True end.
+Definition P_stmt (e : expr) : Prop :=
+  match e with
+  | Slice a b c => oQ a /\ oQ b /\ oQ c
+  | _ => core e = true -> match e with Starred v => A_stmt v | _ => A_stmt e end
+  end.
 
 Lemma P_use e : P_stmt e -> core e && negb (is_starred e) = true -> core e = true /\ is_starred e = false /\ A_stmt e.
 Proof.
   intros H Hc. apply andb_prop in Hc as [Hc Hs]. apply negb_true_iff in Hs. split; [exact Hc|]. split; [exact Hs|].
-  specialize (H Hc). destruct e; try exact H. discriminate.
+  destruct e; try discriminate; exact (H Hc).
 Qed.
 
 Lemma Forall_P_ops vs : Forall P_stmt vs -> forallb (fun x => core x && negb (is_starred x)) vs = true ->
@@ -1165,8 +1198,8 @@ Qed.
 Lemma Forall_P_elems l : Forall P_stmt l -> forallb core l = true -> Forall elemP l.
 Proof.
   intros HF Hc. rewrite forallb_forall in Hc. rewrite Forall_forall in HF |- *. intros w Hw.
-  pose proof (Hc w Hw) as Hcw. pose proof (HF w Hw Hcw) as Hp. split; [exact Hcw|].
-  destruct w; try exact Hp. cbn [core] in Hcw. split; [exact (ec_core _ Hcw)|]. split; [exact (ec_nostar _ Hcw)|exact Hp].
+  pose proof (Hc w Hw) as Hcw. pose proof (HF w Hw) as Hp. split; [exact Hcw|].
+  destruct w; try discriminate; try exact (Hp Hcw). cbn [core] in Hcw. split; [exact (ec_core _ Hcw)|]. split; [exact (ec_nostar _ Hcw)|exact (Hp Hcw)].
 Qed.
 
 Lemma Forall_P_kws kws : Forall (fun kw => P_stmt (snd kw)) kws ->
@@ -1192,7 +1225,7 @@ Proof.
   apply andb_prop in Hc as [Hc Ha]. apply andb_prop in Hc as [Hc Hifs]. apply andb_prop in Hc as [Hc Hni].
   apply andb_prop in Hc as [Hc Hci]. apply andb_prop in Hc as [Hct Htt].
   apply negb_true_iff in Ha. subst a. split; [reflexivity|]. split.
-  - split; [exact Hct|]. split; [exact Htt|]. pose proof (Pt Hct) as Ht. destruct t; try exact Ht; discriminate.
+  - split; [exact Hct|]. split; [exact Htt|]. destruct t; try discriminate; exact (Pt Hct).
   - split.
     + apply P_use; [exact Pi|]. rewrite Hci, Hni. reflexivity.
     + apply Forall_P_ops; assumption.
@@ -1201,8 +1234,8 @@ Qed.
 Theorem A_all : forall e, P_stmt e.
 Proof.
   unfold P_stmt.
-  induction e using expr_ind'; intros Hc; cbn [core] in Hc; try discriminate; cbn beta iota;
-    try (intros n rest res Hp Hs Hloop; cbn [pbody]).
+  induction e using expr_ind'; cbn beta iota;
+    try (intros Hc; cbn [core] in Hc; try discriminate; cbn beta iota; try (intros n rest res Hp Hs Hloop; cbn [pbody])).
   - (* Name *) cbn [safe] in Hs. cbn [app]. eapply Ev_expr_atom; [apply prefix_name; exact Hs|apply Ev_atom_name|exact Hloop].
   - (* Constant *) cbn [app]. eapply Ev_expr_atom; [reflexivity|apply Ev_atom_lit|exact Hloop].
   - (* Starred: the statement is about the value *)
@@ -1331,8 +1364,8 @@ Proof.
         lia.
       * apply (safe_of_rest_ok e C slot_Attribute_value); [exact Hle|apply ctx_trailer; reflexivity].
     + apply Ev_loop_dot. exact Hloop.
-  - (* Subscript *) apply andb_prop in Hc as [Hc _]. apply andb_prop in Hc as [Hc1 Hc2].
-    destruct (P_use e1 IHe1 Hc1) as [C1 [N1 A1]]. destruct (P_use e2 IHe2 Hc2) as [C2 [N2 A2]]. cbn [node_prec] in Hp.
+  - (* Subscript *) apply andb_prop in Hc as [Hc1 Hc2].
+    destruct (P_use e1 IHe1 Hc1) as [C1 [N1 A1]]. cbn [node_prec] in Hp.
     rewrite <- app_assoc. cbn [app]. rewrite <- app_assoc. cbn [app].
     apply (child_of_A e1 C1 N1 A1 slot_Subscript_value n).
     + intros Hle. split.
@@ -1341,7 +1374,53 @@ Proof.
         lia.
       * apply (safe_of_rest_ok e1 C1 slot_Attribute_value); [exact Hle|apply ctx_trailer; reflexivity].
     + eapply Ev_loop_sub; [|exact Hloop].
-      apply closed_child; [exact C2|exact N2|exact A2|reflexivity|right; lia].
+      assert (Hplain : forall x, core x && negb (is_starred x) = true -> P_stmt x ->
+                Ev MIndex (pp slot_Subscript_slice x ++ PK "]" :: rest) (x, PK "]" :: rest)).
+      { intros x Hx Px. destruct (P_use x Px Hx) as [C2 [N2 A2]].
+        apply Ev_index_plain; [apply pp_head_not_key; [exact C2|reflexivity]|reflexivity|].
+        apply closed_child; [exact C2|exact N2|exact A2|reflexivity|right; apply Nat.le_refl]. }
+      destruct e2; try (apply Hplain; assumption).
+      (* a slice: lower : upper : step *)
+      destruct IHe2 as [Qa [Qb Qc]]. apply andb_prop in Hc2 as [Hc2 Hcc]. apply andb_prop in Hc2 as [Hca Hcb].
+      assert (Hpart : forall s x k r, s <= TOP -> oQ (Some x) -> core x && negb (is_starred x) = true -> closer k = true ->
+                Ev (MExpr s) (pp s x ++ PK k :: r) (x, PK k :: r) /\ slice_stop (pp s x ++ PK k :: r) = false /\
+                hd_is ":" (pp s x ++ PK k :: r) = false).
+      { intros s x k r Hs0 Qx Hx Hk. destruct (Qx Hx) as [Cx [Nx Ax]]. split; [|split].
+        - apply closed_child; [exact Cx|exact Nx|exact Ax|exact Hk|right; apply Nat.le_refl].
+        - unfold slice_stop. rewrite !(pp_head_not_key _ x s _ Cx) by reflexivity. reflexivity.
+        - apply pp_head_not_key; [exact Cx|reflexivity]. }
+      rewrite pp_unfold. cbn [node_prec pbody].
+      assert (E0 : Nat.ltb slot_Subscript_slice node_prec_Slice = false) by (vm_compute; reflexivity). rewrite E0. cbn [pparen].
+      rewrite <- !app_assoc. cbn [app]. rewrite <- !app_assoc. cbn [app].
+      (* step *)
+      assert (Hstep : forall lo up, Ev (MSliceStep lo up)
+                 ((match step with Some x => pp slot_Slice_step x | None => [] end) ++ PK "]" :: rest)
+                 (Slice lo up step, PK "]" :: rest)).
+      { intros lo up. destruct step as [x|].
+        - destruct (Hpart slot_Slice_step x "]" rest (ltac:(vm_compute; lia)) Qc Hcc eq_refl) as [E1 [E2 _]].
+          apply Ev_step_some; assumption.
+        - cbn [app]. apply Ev_step_none. reflexivity. }
+      assert (Hup : forall lo, Ev (MSliceUp lo)
+                 ((match upper with Some x => pp slot_Slice_upper x | None => [] end) ++ PK ":" ::
+                  (match step with Some x => pp slot_Slice_step x | None => [] end) ++ PK "]" :: rest)
+                 (Slice lo upper step, PK "]" :: rest)).
+      { intros lo. destruct upper as [x|].
+        - destruct (Hpart slot_Slice_upper x ":" ((match step with Some x => pp slot_Slice_step x | None => [] end) ++ PK "]" :: rest)
+                      (ltac:(vm_compute; lia)) Qb Hcb eq_refl) as [E1 [E2 _]].
+          eapply Ev_up_some; [exact E2|exact E1|apply Hstep].
+        - cbn [app]. apply Ev_up_none. apply Hstep. }
+      destruct lower as [x|].
+      * destruct (Hpart slot_Subscript_slice x ":"
+                    ((match upper with Some x => pp slot_Slice_upper x | None => [] end) ++ PK ":" ::
+                     (match step with Some x => pp slot_Slice_step x | None => [] end) ++ PK "]" :: rest)
+                    (ltac:(vm_compute; lia)) Qa Hca eq_refl) as [E1 [_ E3]].
+        change slot_Slice_lower with slot_Subscript_slice.
+        eapply Ev_index_lower; [exact E3|exact E1|apply Hup].
+      * cbn [app]. apply Ev_index_colon. apply Hup.
+  - (* Slice: nothing of its own, the parts' statements are handed on *)
+    assert (G : forall o, Po P_stmt o -> oQ o).
+    { intros [x|] Hx; [|exact I]. cbn [Po oQ] in *. intros Hcx. apply P_use; assumption. }
+    split; [apply G; exact H|]. split; [apply G; exact H0|apply G; exact H1].
   - (* Call *) apply andb_prop in Hc as [Hc Hck]. apply andb_prop in Hc as [Hcf Hca].
     destruct (P_use e IHe Hcf) as [C [N A]]. cbn [node_prec] in Hp.
     unfold Pl in H. pose proof (Forall_P_elems _ H Hca) as HFa. pose proof (Forall_P_kws _ H0 Hck) as HFk.
@@ -1452,7 +1531,7 @@ Theorem roundtrip_core : forall e, core e = true -> is_starred e = false ->
   exists f0, forall f, f0 <= f -> pc f (MExpr slot_top) (pp slot_top e) = Some (e, []).
 Proof.
   intros e Hc Hns. rewrite <- (app_nil_r (pp slot_top e)).
-  assert (HA : A_stmt e) by (pose proof (A_all e Hc) as H; destruct e; try exact H; discriminate).
+  assert (HA : A_stmt e) by (pose proof (A_all e) as H; destruct e; try discriminate; exact (H Hc)).
   apply (child_of_A e Hc Hns HA slot_top slot_top [] (e, [])).
   - intros Hle. split; [exact Hle|]. apply (safe_of_rest_ok e Hc slot_top); [exact Hle|vm_compute; reflexivity].
   - apply Ev_loop_stop. reflexivity.
